@@ -1,7 +1,12 @@
 """Shared engine of the C03 / C04 / C05 checks: generators of `pedantic/sig x call` cases, rendering of the
 reified function object and of the call as Coq terms (coq/Model/Pedantic.v), decoding of the model's
 answer (coq/Model/PedanticEval.v), correspondence (implementation vs model) and the three property
-judges (implementation vs the oracle of coq/Spec/PedanticSpec.v)."""
+judges (implementation vs the oracle of coq/Spec/PedanticSpec.v).
+
+Input dimensions beyond signature x call x body outcome (each counted in the evidence as dim:... and floored by the obligation
+generator-floor): the text of the function (TEXTS / AT_TEXTS), call histories, calls made inside a running call, a shadowed namesake,
+parameter names from the decorators' own vocabulary (rename_params), bodies that change an argument in place and return it
+(add_mutret), two products of one def statement (add_sibling), one positional value with every parameter defaulted (focus='onepos')."""
 import copy, json, re
 from lib import *
 import universe as U
@@ -229,7 +234,15 @@ ALL_LISTED = ['__new__', '__init__', '__str__', '__del__', '__int__', '__float__
 TEXTS = ['comment_star', 'string_star', 'doc_star', 'doc_static', 'comment_static', 'doc_pedantic', 'comment_rk',
          'comment_setter', 'deco_at', 'between_at',
          'doc_yield', 'comment_yield', 'string_yield', 'comment_async', 'doc_self', 'comment_classmethod', 'doc_return',
-         'doc_yield', 'comment_yield']
+         'doc_yield', 'comment_yield',
+         # '@' and decorator-looking lines AFTER the def line (body, nested definitions, docstring)
+         'body_nested_deco', 'body_nested_deco_call', 'body_nested_class', 'body_matmul', 'string_at_lines', 'doc_at_lines', 'doc_epydoc']
+# the variants that put an '@' somewhere into the source of the function (before or after the def line)
+AT_TEXTS = ['body_nested_deco', 'body_nested_deco_call', 'body_nested_class', 'body_matmul', 'string_at_lines', 'doc_at_lines', 'doc_epydoc',
+            'body_nested_deco', 'doc_at_lines', 'deco_at', 'between_at', 'comment_rk', 'doc_pedantic', 'comment_classmethod']
+# annotations of the sibling product of a def statement that is evaluated twice
+SIB_ANNS = [['any'], ['any'], ['cls', 'int'], ['cls', 'str'], ['cls', 'NoneType'], ['cls', 'bytes'], ['gen', 'typing', 'List', [['cls', 'int']]],
+            ['cls', 'object']]
 
 
 def strip_iters(v, keep_top):
@@ -352,9 +365,13 @@ def wrong(rng, a, v):
     return None
 
 
-def gen_signature(rng, want_varpos=False):
+def gen_signature(rng, want_varpos=False, all_defaults=False):
+    """all_defaults: no *args, at least one positional parameter, every named parameter has a default (a call that leaves any of
+    them out still binds)"""
     n_pos = rng.choice([0, 1, 1, 2, 2, 3, 4]) if not want_varpos else rng.choice([0, 0, 0, 1, 2])
-    has_varpos = want_varpos or rng.random() < 0.18
+    if all_defaults:
+        n_pos = rng.choice([1, 1, 1, 2, 2, 3])
+    has_varpos = (want_varpos or rng.random() < 0.18) and not all_defaults
     n_kwo = rng.choice([0, 0, 0, 1, 2]) if (has_varpos or rng.random() < 0.5) else 0
     has_varkw = rng.random() < 0.2
     params, vals = [], {}
@@ -362,7 +379,7 @@ def gen_signature(rng, want_varpos=False):
     posonly_n = rng.choice([1, 2]) if (n_pos and rng.random() < 0.03) else 0
     for i in range(n_pos):
         a, v = gen_ann_val(rng)
-        if dflt_started or rng.random() < 0.25:
+        if dflt_started or all_defaults or rng.random() < 0.25:
             dflt_started = True
             d = conf(rng, a) or v
         else:
@@ -377,12 +394,13 @@ def gen_signature(rng, want_varpos=False):
         params.append({'name': 7 if rng.random() < 0.8 else 9, 'kind': 'varpos', 'ann': a, 'default': None})
     for i in range(n_kwo):
         a, v = gen_ann_val(rng)
-        d = (conf(rng, a) or v) if rng.random() < 0.45 else None
+        d = (conf(rng, a) or v) if (all_defaults or rng.random() < 0.45) else None
         params.append({'name': KWO_NAMES[i], 'kind': 'kwonly', 'ann': a, 'default': d})
         vals[KWO_NAMES[i]] = v
     if has_varkw:
         a, v = gen_ann_val(rng, 0 if rng.random() < 0.6 else 1)
-        params.append({'name': 8 if rng.random() < 0.7 else 10, 'kind': 'varkw', 'ann': a, 'default': None})
+        r = rng.random()
+        params.append({'name': 8 if r < 0.7 else 10 if r < 0.93 else rng.choice(N.VOCAB), 'kind': 'varkw', 'ann': a, 'default': None})
     return params, vals
 
 
@@ -443,7 +461,15 @@ def gen_shape(rng, forced=None):
         c['async'] = True
     if rng.random() < 0.3:
         c['text'] = rng.choice(TEXTS)
+    fix_text(c)
     return c, kind
+
+
+def fix_text(c):
+    """an epydoc docstring (@param ...) is rejected by @pedantic when the function is decorated (only Google style parses):
+    under @pedantic the docstring carries other '@tag' lines"""
+    if c['text'] == 'doc_epydoc' and c['mode'] != 'require_kwargs':
+        c['text'] = 'doc_at_lines'
 
 
 from p_common_msgs import EXC_MSGS
@@ -463,7 +489,10 @@ def gen_case(rng, stream, forced=None, focus=None):
     c['ctx'] = GC.CTX
     c['stream'] = stream
     c['exc_msg'] = rng.randrange(len(EXC_MSGS)) if rng.random() < 0.5 else 0
-    params, vals = gen_signature(rng, want_varpos=(focus == 'varargs' and kind != 'property'))
+    params, vals = gen_signature(rng, want_varpos=(focus == 'varargs' and kind != 'property'), all_defaults=(focus == 'onepos'))
+    if focus == 'onepos' and rng.random() < 0.85:
+        c['text'] = rng.choice(AT_TEXTS)
+        fix_text(c)
     if kind == 'property':
         a, v = gen_ann_val(rng)
         params, vals = [{'name': 18, 'kind': 'pos', 'ann': a, 'default': None}], {18: v}
@@ -488,7 +517,8 @@ def gen_case(rng, stream, forced=None, focus=None):
     if kind == 'property':
         ra, rv = ['cls', 'NoneType'], ['none']
     c['ret'] = ra
-    c['body'] = ['ret', rv] if rng.random() < 0.85 else ['raise', rng.choice(BODY_EXC)]
+    # (TypeError is the class CPython itself raises for a call that does not fit: a body that raises one of its own has more weight)
+    c['body'] = ['ret', rv] if rng.random() < 0.85 else ['raise', rng.choice(BODY_EXC + [[0, 2], [0, 2]])]
     if c['body'][0] == 'raise' and c['body'][1] == [0, 2] and rng.random() < 0.8:
         c['exc_msg'] = rng.choice([1, 2, 3, 4])      # a TypeError of the body that reads like one of CPython's own binding errors
     # the conforming keyword call
@@ -501,7 +531,7 @@ def gen_case(rng, stream, forced=None, focus=None):
     if vk:
         # parameter names are inputs too: a key spelled like the var-keyword / var-positional parameter itself lands in **kwargs
         own = [vk[0]['name']] + [p['name'] for p in params if p['kind'] == 'varpos']
-        pool = EXTRA_KW + own * 2
+        pool = EXTRA_KW + own * 2 + rng.sample(N.VOCAB, 2)      # ... and so does a key spelled like a name the decorators use themselves
         for name in rng.sample(pool, rng.choice([0, 1, 2, 2])):
             if name in [k for k, _ in kwargs]:
                 continue
@@ -534,15 +564,32 @@ def gen_case(rng, stream, forced=None, focus=None):
     rng.shuffle(kwargs)
     c['args'], c['kwargs'] = args, kwargs
     c['mut'] = 'none'
+    # the body changes an argument container in place and returns that very object, annotated with the very same annotation object
+    if c['mode'] == 'pedantic' and kind != 'property' and focus is None and not c.get('recv_as_value') and rng.random() < 0.20:
+        add_mutret(rng, c, stream)
     # the call under test is made while a conforming keyword call of the same callable is running (re-entrancy)
     if (c['mode'] == 'pedantic' and kind in ('func', 'stacked', 'class_deco', 'method_direct') and not c['async']
-            and not c.get('self_kw') and rng.random() < 0.12):
+            and not c.get('self_kw') and not c.get('mutret') and rng.random() < 0.12):
         c['inside'] = {'kwargs': copy.deepcopy(kwargs_full)}
         no_default_iters(c)
     # a second function of the same name defined (and called) earlier in the same module: nothing may leak from it
     if kind in ('func', 'require_kwargs') and c['style'] == 'func' and rng.random() < 0.08:
         c['shadow'] = {'star': rng.random() < 0.7, 'args': [['int', 1]] * rng.choice([1, 2])}
-    if stream == 'near':
+    # the function is one of TWO products of the same def statement (a factory called twice) that differ in their annotations
+    if (c['mode'] == 'pedantic' and kind in ('func', 'stacked') and c['style'] == 'func' and c['text'] == 'none' and not c.get('shadow')
+            and not c.get('inside') and rng.random() < 0.14):
+        add_sibling(rng, c)
+    if focus == 'onepos':
+        # exactly ONE declared parameter written positionally, everything else by keyword or left to its default; all values conform
+        lead = [p for p in params if p['kind'] in ('pos', 'posonly')]
+        kw = dict((k, v) for k, v in c['kwargs'])
+        p0 = lead[0]
+        c['args'] = [strip_iters(kw[p0['name']] if p0['name'] in kw else p0['default'], False)]
+        c['kwargs'] = [kv for kv in c['kwargs'] if kv[0] != p0['name']]
+        c['stream'], c['mut'], c['onepos'] = 'near', 'positional', True
+    elif stream == 'near' and c['mut'] != 'none':
+        pass            # the near-miss is the one the body produces (mutret_bad)
+    elif stream == 'near':
         if focus == 'varargs' and vp and rng.random() < 0.6:
             n_lead = len([p for p in params if p['kind'] in ('pos', 'posonly')])
             if len(c['args']) > n_lead:      # corrupt a star element, preferably the first one
@@ -563,7 +610,132 @@ def gen_case(rng, stream, forced=None, focus=None):
             mutate_near(rng, c, kind, positional_style)
     elif stream == 'malformed':
         mutate_malformed(rng, c, kind)
+    if kind != 'property' and rng.random() < 0.12:
+        rename_params(rng, c)
     return c
+
+
+MUT_KINDS = {
+    # value kind -> annotations under which it is checked element by element (origin, spellings)
+    'list': [('List', ['typing', 'builtin']), ('List', ['typing', 'builtin']), ('MutableSequence', ['typing']), ('Sequence', ['typing']),
+             ('Iterable', ['typing']), ('Collection', ['typing'])],
+    'set': [('Set', ['typing', 'builtin']), ('MutableSet', ['typing']), ('AbstractSet', ['typing'])],
+    'deque': [('Deque', ['typing'])],
+    'dict': [('Dict', ['typing', 'builtin']), ('Dict', ['typing', 'builtin']), ('Mapping', ['typing']), ('MutableMapping', ['typing'])],
+}
+
+
+def add_mutret(rng, c, stream):
+    """one named parameter becomes a mutable container (passed by keyword, positionally in front of *args, or left to its default);
+    the body appends / adds / sets ONE element in place and returns that very object; the return annotation is the parameter's
+    annotation - the same object.  The model and the oracle see the body's product: the container as it is AFTER the change."""
+    params = c['params']
+    cands = [p for p in params if p['kind'] in ('pos', 'kwonly') and p['name'] not in (0, 1)]
+    if not cands:
+        return
+    p = rng.choice(cands)
+    kind = rng.choice(['list', 'list', 'list', 'dict', 'dict', 'set', 'deque'])
+    x = rng.choice(LEAF_FOR_LISTS if kind != 'set' else [['cls', 'int'], ['cls', 'str']])
+    if kind != 'set' and rng.random() < 0.2:
+        x = ['union', 'typing', [x, ['cls', 'NoneType']]]
+    origin, spellings = rng.choice(MUT_KINDS[kind])
+    targs = [['cls', 'str'], x] if kind == 'dict' else [x]
+    ann = ['gen', rng.choice(spellings), origin, targs]
+    elems = [e for e in (conf(rng, x) for _ in range(rng.choice([0, 1, 1, 2]))) if e is not None]
+    elems = [strip_iters(e, False) for e in elems]
+    if kind == 'set':
+        elems = GC.unique(elems)[:1]
+    good = conf(rng, x)
+    if good is None:
+        return
+    bad = wrong(rng, x, good)
+    if kind == 'set' and (bad is None or not GC.is_hashable(bad)):
+        bad = ['none']
+    if kind == 'set' and (not GC.is_hashable(good) or good in elems or GC.unique(elems + [good]) != elems + [good]):
+        good = None
+    use_bad = stream == 'near' and bad is not None and (good is None or rng.random() < 0.75)
+    add = bad if use_bad else good
+    if add is None:
+        return
+    add = strip_iters(add, False)
+    if kind == 'dict':
+        pre = [kind, [[['str', [97 + j]], e] for j, e in enumerate(elems)]]
+        post = [kind, pre[1] + [[['str', [122, 122]], add]]]
+    else:
+        pre = [kind, elems]
+        post = [kind, elems + [add]]
+    name = p['name']
+    lead = [q for q in params if q['kind'] in ('pos', 'posonly')]
+    placed = False
+    for kv in c['kwargs']:
+        if kv[0] == name:
+            kv[1] = pre
+            placed = True
+    if not placed and c['args'] and p in lead and lead.index(p) < len(c['args']):
+        c['args'][lead.index(p)] = pre
+        placed = True
+    if placed:
+        if p['default'] is not None:
+            p['default'] = [kind, []]
+    elif p['default'] is not None:
+        p['default'] = pre                    # the parameter is left out: the body changes the DEFAULT object and returns it
+    else:
+        return
+    p['ann'] = ann
+    c['ret'] = copy.deepcopy(ann)
+    c['ret_same'] = name
+    c['body'] = ['ret', post]
+    c['mutret'] = {'name': name, 'add': add}
+    if kind == 'dict':
+        c['mutret']['key'] = ['str', [122, 122]]
+    c['mut'] = 'mutret_bad' if use_bad else 'none'
+    no_default_iters(c)
+
+
+def add_sibling(rng, c):
+    """the def statement of the function is evaluated twice (a factory called twice): the sibling product has other annotation
+    objects (and sometimes other default objects); it is built before or after the product under test and sometimes called first"""
+    params = c['params']
+    sib = {'anns': [[p['name'], rng.choice(SIB_ANNS)] for p in params if p['ann'] is not None],
+           'defaults': [[p['name'], rng.choice([['int', 0], ['none'], ['str', [115]]])] for p in params
+                        if p['default'] is not None and rng.random() < 0.3],
+           'ret': rng.choice(SIB_ANNS), 'order': rng.choice(['before', 'before', 'after']), 'call': rng.random() < 0.3}
+    c['sibling'] = sib
+    if sib['call']:
+        no_default_iters(c)
+
+
+def rename_params(rng, c):
+    """parameter NAMES are inputs of the call protocol: some named parameters (and the keys that go with them) are spelled like the
+    identifiers the decorators use for their own parameters and locals (context, func, call, value, key, ...; also plain `args` /
+    `kwargs` where no star parameter carries that name)"""
+    params = c['params']
+    named = [p for p in params if p['kind'] in ('pos', 'kwonly', 'posonly') and p['name'] not in (0, 1)]
+    if not named:
+        return
+    used = set(p['name'] for p in params) | set(k for k, _ in c['kwargs']) | {0, 1}
+    for kv in (c.get('inside') or {}).get('kwargs', []):
+        used.add(kv[0])
+    pool = [n for n in N.VOCAB + [7, 8] if n not in used]
+    rng.shuffle(pool)
+    chosen = [p for p in named if rng.random() < 0.5] or [rng.choice(named)]
+    mapping = {}
+    for p in chosen:
+        if pool:
+            mapping[p['name']] = pool.pop()
+    ren = lambda n: mapping.get(n, n)
+    for p in params:
+        p['name'] = ren(p['name'])
+    c['kwargs'] = [[ren(k), v] for k, v in c['kwargs']]
+    if c.get('inside'):
+        c['inside']['kwargs'] = [[ren(k), v] for k, v in c['inside']['kwargs']]
+    if c.get('mutret'):
+        c['mutret']['name'] = ren(c['mutret']['name'])
+        c['ret_same'] = ren(c['ret_same'])
+    if c.get('sibling'):
+        for key in ('anns', 'defaults'):
+            c['sibling'][key] = [[ren(k), v] for k, v in c['sibling'][key]]
+    c['vocab'] = True
 
 
 def mutate_near(rng, c, kind, positional_style):
@@ -590,7 +762,7 @@ def mutate_near(rng, c, kind, positional_style):
                 c['kwargs'][i][1] = w
                 c['mut'] = 'kwval'
                 return
-        if o == 'result' and c['body'][0] == 'ret' and kind != 'property':
+        if o == 'result' and c['body'][0] == 'ret' and kind != 'property' and not c.get('mutret'):
             w = wrong(rng, c['ret'], c['body'][1])
             if w is not None:
                 c['body'] = ['ret', w]
@@ -694,7 +866,8 @@ def gen_history_case(rng, stream):
     Every call is judged against the state of the default AT THAT CALL (the function is reified after the mutation)."""
     for _ in range(20):
         c = gen_case(rng, 'valid', forced=rng.choice(['func', 'func', 'class_deco', 'method_direct', 'stacked']))
-        if not c['async'] and not c.get('self_kw') and c['mut'] == 'none' and not c.get('inside'):
+        if (not c['async'] and not c.get('self_kw') and c['mut'] == 'none' and not c.get('inside') and not c.get('mutret')
+                and not c.get('sibling') and not c.get('vocab')):
             break
     c['stream'] = stream
     c.pop('shadow', None)
@@ -778,6 +951,10 @@ def gen_cases(rng, tier, scale=1):
             cases.append(gen_gen_case(rng, stream))
         elif r2 < 0.40:
             cases.append(gen_case(rng, stream, forced=rng.choice(['func', 'stacked', 'stacked', 'class_deco', 'method_direct']), focus='varargs'))
+        elif r2 < 0.48:
+            # one declared parameter positional, every other one defaulted; '@' somewhere in the source of the function
+            cases.append(gen_case(rng, 'near', forced=rng.choice(['func', 'func', 'func', 'require_kwargs', 'require_kwargs', 'class_deco',
+                                                                   'method_direct', 'stacked']), focus='onepos'))
         else:
             cases.append(gen_case(rng, stream))
     return cases
@@ -1078,7 +1255,10 @@ def reductions(c):
     annotation / the text / the generator script)"""
     out = []
     base = {k: v for k, v in c.items() if not k.startswith('_')}
+    mu = (base.get('mutret') or {}).get('name')          # the parameter whose value the body changes and returns stays as it is
     for i, p in enumerate(base['params']):
+        if p['name'] == mu:
+            continue
         d = copy.deepcopy(base)
         d['params'].pop(i)
         d['kwargs'] = [kv for kv in d['kwargs'] if kv[0] != p['name']]
@@ -1089,10 +1269,15 @@ def reductions(c):
                 d['args'].pop(j)
         out.append(d)
     for i in range(len(base['kwargs'])):
-        d = copy.deepcopy(base); d['kwargs'].pop(i); out.append(d)
+        if base['kwargs'][i][0] != mu:
+            d = copy.deepcopy(base); d['kwargs'].pop(i); out.append(d)
     for i in range(len(base['args'])):
-        if base['style'] != 'property':
+        if base['style'] != 'property' and mu is None:
             d = copy.deepcopy(base); d['args'].pop(i); out.append(d)
+    if base.get('sibling'):
+        d = copy.deepcopy(base); d.pop('sibling'); out.append(d)
+        if base['sibling'].get('call'):
+            d = copy.deepcopy(base); d['sibling']['call'] = False; out.append(d)
     if base['text'] != 'none':
         d = copy.deepcopy(base); d['text'] = 'none'; out.append(d)
     if base.get('shadow'):
@@ -1105,7 +1290,7 @@ def reductions(c):
         d = copy.deepcopy(base); d['drive'] = 'direct'; out.append(d)
     if base.get('exc_msg'):
         d = copy.deepcopy(base); d['exc_msg'] = 0; out.append(d)
-    if not base['gen'] and base['ret'] != ['cls', 'int'] and base['style'] != 'property':
+    if not base['gen'] and base['ret'] != ['cls', 'int'] and base['style'] != 'property' and mu is None:
         d = copy.deepcopy(base); d['ret'] = ['cls', 'int']; d['body'] = ['ret', ['int', 1]]; out.append(d)
     if base['gen']:
         for i in range(len(base['script']) - 1):
@@ -1113,7 +1298,7 @@ def reductions(c):
         for i in range(len(base['ops'])):
             d = copy.deepcopy(base); d['ops'].pop(i); out.append(d)
     for i, p in enumerate(base['params']):
-        if p['ann'] not in (None, ['cls', 'int']) and p['kind'] in ('pos', 'kwonly'):
+        if p['ann'] not in (None, ['cls', 'int']) and p['kind'] in ('pos', 'kwonly') and p['name'] != mu:
             d = copy.deepcopy(base)
             d['params'][i]['ann'] = ['cls', 'int']
             if d['params'][i]['default'] is not None:
@@ -1195,11 +1380,18 @@ def run(pid, props, tier, seed, replay=None):
         if m is None:
             disagreements.append({'case': c, 'what': 'model evaluation failed'})
             continue
-        key = json.dumps([c[k] for k in ('style', 'mkind', 'name', 'decos', 'text', 'via', 'params', 'ret', 'args', 'kwargs', 'body', 'async')],
-                         sort_keys=True)
+        key = json.dumps([c[k] for k in ('style', 'mkind', 'name', 'decos', 'text', 'via', 'params', 'ret', 'args', 'kwargs', 'body', 'async')]
+                         + [c.get('mutret'), c.get('sibling')], sort_keys=True)
         ck.note_case(key, nontrivial=len(c['params']) >= 1 and (c['mut'] != 'none' or len(c['kwargs']) + len(c['args']) >= 1))
         if c.get('history'): bump('history(calls before, default mutated)')
         if c.get('inside'): bump('made-inside-a-running-call')
+        if c.get('mutret'): bump('dim:body-changes-argument-in-place-and-returns-it' + ('(non-conforming)' if c['mut'] == 'mutret_bad' else ''))
+        if c.get('sibling'): bump('dim:two-products-of-one-def-statement')
+        if c.get('onepos'): bump('dim:one-positional-all-defaulted')
+        if c['text'] in AT_TEXTS: bump('dim:at-sign-in-source')
+        if any(p['name'] in N.VOCAB or (p['name'] in (7, 8) and p['kind'] in ('pos', 'kwonly', 'posonly')) for p in c['params']) \
+                or any(k in N.VOCAB for k, _ in c['kwargs']):
+            bump('dim:names-of-the-decorators-own-vocabulary')
         bump('stream:' + c['stream']); bump('style:' + c['style'] + '/' + c['mkind']); bump('mut:' + c['mut'])
         bump('outcome:%d' % i['out']); bump('body-ran:%d' % len(i['journal']))
         if c['text'] != 'none': bump('text-varied')
@@ -1230,9 +1422,13 @@ def run(pid, props, tier, seed, replay=None):
     ck.oblige('correspondence:pedantic/sig-x-call', 'correspondence', not disagreements,
               json.dumps(disagreements[0], default=str)[:1500] if disagreements else f'{ck.traces_validated} calls agree')
     floor_ok = replay is not None or (hist.get('spec:c03_args_bad', 0) >= 20 and hist.get('spec:c04_call_ok', 0) >= 50
-                                      and hist.get('spec:c05_positional', 0) >= 20)
+                                      and hist.get('spec:c05_positional', 0) >= 20
+                                      and hist.get('dim:body-changes-argument-in-place-and-returns-it(non-conforming)', 0) >= 4
+                                      and hist.get('dim:two-products-of-one-def-statement', 0) >= 8
+                                      and hist.get('dim:one-positional-all-defaulted', 0) >= 20
+                                      and hist.get('dim:names-of-the-decorators-own-vocabulary', 0) >= 20)
     ck.oblige('generator-floor', 'correspondence', floor_ok,
-              f'cases per oracle region: {dict((k, v) for k, v in hist.items() if k.startswith("spec:"))}')
+              f'cases per oracle region / input dimension: {dict((k, v) for k, v in hist.items() if k.startswith(("spec:", "dim:")))}')
     ck.coverage.update({'histogram': dict(sorted(hist.items())), 'disagreements': len(disagreements)})
     ck.samples = [{'case': c, 'impl_outcome': i.get('out') if i else None, 'model_outcome': m['out'] if m else None}
                   for c, i, m in results[:3] + results[-3:]]
@@ -1249,7 +1445,11 @@ def run(pid, props, tier, seed, replay=None):
     return ck.finish(
         rule='generated modules (real files) x calls: signatures with all parameter kinds / defaults / *args / **kwargs, plain functions, '
              'instance / static / class methods via @pedantic_class and via direct decoration, property setters, coroutines, stacked decorators '
-             'in both orders, bodies whose text carries the trigger words; streams valid 45% / near-miss 45% (one corrupted keyword value, default, '
+             'in both orders, bodies whose text carries the trigger words (also \'@\' and decorator-looking lines after the def line: nested '
+             'decorated definitions, docstring tags, the @ operator), parameter names and **kwargs keys drawn from the decorators\' own '
+             'vocabulary, bodies that change an argument container in place and return it under the parameter\'s own annotation object, '
+             'functions that are one of two products of the same def statement with different annotations, one positional value '
+             'where every parameter has a default; streams valid 45% / near-miss 45% (one corrupted keyword value, default, '
              '*args element, **kwargs value, result, or k leading keywords moved to positional) / malformed 10%; distinct = canonical case; '
              'non-trivial = at least one declared parameter and (a corruption or at least one argument)',
         checker_cmd=f'make -C coq {props[:-2]}.vo && coqc -Q coq PV coq/{props} (Print Assumptions under every theorem)',
@@ -1360,6 +1560,12 @@ def gen_gen_case(rng, stream):
         c['mut'] = 'gen_ret'
         c['ret'] = rng.choice([['cls', 'int'], ['gen', 'typing', 'List', [Y]], ['bare', 'Generator'], ['bare', 'Iterator'], None, ['any'],
                                ['gen', 'typing', 'Sequence', [Y]], ['union', 'typing', [['gen', 'typing', 'Iterator', [Y]], ['cls', 'NoneType']]]])
+    if c['style'] == 'func' and c['mode'] == 'pedantic' and stream != 'malformed' and rng.random() < 0.12:
+        add_sibling(rng, c)           # a generator function that is one of two products of the same def statement
+        c['sibling']['ret'] = rng.choice([['gen', 'typing', 'Generator', [['any'], ['any'], ['any']]], ['gen', 'typing', 'Iterator', [['cls', 'bytes']]],
+                                          ['gen', 'typing', 'Generator', [['cls', 'bytes'], ['cls', 'NoneType'], ['cls', 'bytes']]]])
+    if rng.random() < 0.10:
+        rename_params(rng, c)
     return c
 
 
